@@ -54,7 +54,7 @@ LineOf(a, e, b) ==
     sS |-> <<>>, sR |-> <<>>, wS |-> <<>>, wR |-> <<>>, fz |-> "", flen |-> 0, probeok |-> TRUE, aspathok |-> TRUE, acc |-> 0, esub |-> 0,
     rq |-> RqOf(e), statsame |-> (b.out = <<>>), rest |-> RestOf(e, a)]
 \* in the model "manual stop in force" is exactly allow_automatic_start = FALSE
-MonOf(a) == [Mon0 EXCEPT !.stopped = IF a.allow THEN "no" ELSE "yes"]      \* (coop0 = -1: the cooperative clauses are checked by Coop.tla)
+MonOf(a) == [Mon0 EXCEPT !.stopped = IF a.allow THEN "no" ELSE "yes", !.restarted = a.allow]      \* (coop0 = -1: the cooperative clauses are checked by Coop.tla)
 
 CheckStep == Check(MonOf(s), LineOf(s, ev', s'))
 =============================================================================
